@@ -75,3 +75,16 @@ Fixpoint look_wf (ng : nat) (n : node) : bool :=
   | NLoop body _ _ _ _ _ => look_wf ng body
   | _ => true
   end.
+
+(* every bracket of a node satisfies the CodePointSet invariant (C12 proves the operations preserve it) *)
+Fixpoint brackets_wf (n : node) : bool :=
+  match n with
+  | NBracket b => cps_wf (br_ivs b)
+  | NCat l => (fix go (l : list node) : bool := match l with [] => true | x :: t => brackets_wf x && go t end) l
+  | NAlt a b => brackets_wf a && brackets_wf b
+  | NCaptureGroup _ c _ => brackets_wf c
+  | NLookaround _ _ _ _ c => brackets_wf c
+  | NLoop body _ _ _ _ _ => brackets_wf body
+  | NLoop1CharBody body _ _ _ => brackets_wf body
+  | _ => true
+  end.
